@@ -10,6 +10,7 @@ CONSTANTS
   L = 4
   FixPred = %(fp)s
   FixLeave = %(fl)s
+  FixWrap = %(fw)s
   MaxTry = 2
   MCLayout <- %(lay)s
   InitMembers = %(init)s
@@ -18,6 +19,7 @@ CONSTANTS
   MaxOps = 0
   Faults = FALSE
   OpKinds = {}
+  MaxMembers = 0
   B = %(B)d
   FixSelf = %(fs)s
 INVARIANTS InvTerminates InvLookupCorrect
@@ -26,7 +28,7 @@ CHECK_DEADLOCK FALSE
 
 def cfg(fixself, lay="LayR4", init="{1, 3, 4}", j="{2}", l="{3}", B=3):
     t = lambda b: "TRUE" if b else "FALSE"
-    return CFG % dict(fp=t(ringcheck.CODE_FIXPRED), fl=t(ringcheck.CODE_FIXLEAVE), lay=lay, init=init, j=j, l=l, B=B, fs=t(fixself))
+    return CFG % dict(fp=t(ringcheck.CODE_FIXPRED), fl=t(ringcheck.CODE_FIXLEAVE), fw=t(ringcheck.CODE_FIXWRAP), lay=lay, init=init, j=j, l=l, B=B, fs=t(fixself))
 
 
 def replay(ck, binary, sc, origin):
